@@ -245,6 +245,44 @@ pub fn run_merge_many(a: &Args) -> Result<(), String> {
     }
     Ok(())
 }
+/// C15 (merge tool, many inputs): with more input files than the tool keeps open at once (> 976) it merges in groups
+/// and then merges the group results; clip / adjust / threshold must still apply ONCE, to the per-base sum.
+/// args: n=<files> neg=<how many of the first 976 files carry -1 instead of +1> last=<value of the last file> [adjust=<a>]
+pub fn run_merge_groups(a: &Args) -> Result<(), String> {
+    use bigtools::utils::cli::bigwigmerge::{bigwigmerge, BigWigMergeArgs};
+    use bigtools::utils::cli::BBIWriteArgs;
+    let n: usize = a.get("n").map(|s| s.parse().unwrap()).unwrap_or(977);
+    let neg: usize = a.get("neg").map(|s| s.parse().unwrap()).unwrap_or(489);
+    let last: f32 = a.get("last").map(|s| s.parse().unwrap()).unwrap_or(5.0);
+    let adjust: Option<f32> = a.get("adjust").map(|s| s.parse().unwrap());
+    let dir = tempfile::tempdir().map_err(|e| e.to_string())?;
+    let mut names = vec![];
+    let mut want = 0f64;
+    for i in 0..n {
+        let v: f32 = if i == n - 1 { last } else if i < neg { -1.0 } else { 1.0 };
+        want += v as f64;
+        let tf = write_bw(&[(0, 10, v)], 100, 4, 4, Some(vec![]), false, false)?;
+        let pth = dir.path().join(format!("in{}.bw", i));
+        std::fs::copy(tf.path(), &pth).map_err(|e| e.to_string())?;
+        names.push(pth.to_string_lossy().to_string());
+    }
+    let want = want + adjust.unwrap_or(0.0) as f64;
+    let out = dir.path().join("merged.bedGraph");
+    let args = BigWigMergeArgs {
+        output: out.to_string_lossy().to_string(), bigwig: names, list: vec![], threshold: 0.0, adjust, clip: None, max: false, output_type: None,
+        write_args: BBIWriteArgs { nthreads: 1, nzooms: 2, zooms: None, uncompressed: true, sorted: "all".to_string(), block_size: 4, items_per_slot: 4, inmemory: true },
+    };
+    bigwigmerge(args).map_err(|e| format!("bigwigmerge failed: {}", e))?;
+    let text = std::fs::read_to_string(&out).map_err(|e| e.to_string())?;
+    let mut got: Option<f64> = None;
+    for l in text.lines() { let f: Vec<&str> = l.split('\t').collect(); if f.len() >= 4 && f[1] == "0" { got = Some(f[3].parse().unwrap()); } }
+    match got {
+        Some(g) if (g - want).abs() < 1e-4 => Ok(()),
+        Some(g) => Err(format!("{} files: merged value at base 0 is {} but the inputs sum (plus adjust) to {}", n, g, want)),
+        None => if want > 0.0 { Err(format!("{} files: no merged value at base 0 but the inputs sum to {}", n, want)) } else { Ok(()) },
+    }
+}
+pub fn gen_merge_groups(r: &mut Rng) -> String { format!("n={} neg={} last={}", [3usize, 976, 977, 980][r.below(4) as usize], r.below(3), r.range(1, 6)) }
 pub fn gen_merge_many(r: &mut Rng) -> String {
     let base: u32 = [0u32, 49_990, 99_990, 4_294_899_990, 4_294_917_000, 4_294_940_000, 4_294_949_990, 4_294_960_000, 4_294_967_200][r.below(9) as usize];
     let mut s = String::from("streams=");
